@@ -114,6 +114,11 @@ type script struct {
 	msgs     [][]byte
 	code     uint32
 	msg      string
+	// a call that stays in flight (inflight.go): after holdAfter messages the handler closes
+	// holding and waits for hold to be closed (or for the call to be cut)
+	hold      chan struct{}
+	holding   chan struct{}
+	holdAfter int
 }
 
 type bview struct {
@@ -297,7 +302,18 @@ func (b *backend) handle(_ any, ss grpc.ServerStream) error {
 			sent++
 		}
 	}
-	for ; sent < len(sc.msgs); sent++ {
+	for ; ; sent++ {
+		if sc.hold != nil && sent == sc.holdAfter {
+			close(sc.holding)
+			select {
+			case <-sc.hold:
+			case <-ss.Context().Done():
+				return ss.Context().Err()
+			}
+		}
+		if sent >= len(sc.msgs) {
+			break
+		}
 		if err := ss.SendMsg(&sc.msgs[sent]); err != nil {
 			return err
 		}
@@ -764,6 +780,8 @@ func main() {
 	drv := startDriver(false, 150)
 	// likewise: the real config.Load + startServers with several gRPC listeners per process (listeners.go)
 	ldrv := startListenersDriver(run, false, 150)
+	// likewise: one more instance of the real newGrpcProxy listener for the calls in flight (inflight.go)
+	fdrv := startDriver(false, 150)
 	phase := time.Now()
 	lap := func(name string) {
 		run.Notes["seconds_"+name] = time.Since(phase).Seconds()
@@ -782,6 +800,8 @@ func main() {
 	lap("limits")
 	listenersCases(run, backends, tlsBackend, ldrv)
 	lap("listeners")
+	inflightCases(run, backends, fdrv)
+	lap("inflight")
 	quiet.collect(run)
 	lap("waiting_for_quiet_calls")
 
@@ -897,7 +917,17 @@ func poolCases(run *vh.Run, r *rand.Rand, backends []*backend) {
 	b0, b1, b2 := backends[0].addr, backends[1].addr, backends[2].addr
 	universe := []string{"grpc://" + b0, "grpc://" + b1, "grpc://" + b2, "grpcs://" + b0, "grpc://" + b0 + "/sub",
 		"grpc://" + strings.Replace(b1, "127.0.0.1", "localhost", 1), "grpc://127.0.0.1:1", "grpc://" + b2 + "/"}
-	n := run.Scale(260, 2600)
+	poolCasesOver(run, r, universe, run.Scale(260, 2600), "")
+	// the same histories over targets written with other schemes: what `route add svc /pkg.Svc
+	// http://host:port/` and the consul registry (a tag without proto=grpc) put into the table;
+	// the pool is keyed by URL.String() and hasTarget compares those strings, whatever the scheme
+	// (own random source: the histories above do not change)
+	other := []string{"http://" + b0 + "/", "http://" + b1, "https://" + b2 + "/", "tcp://" + b0, "grpc://" + b1,
+		"http://" + b2 + "/sub", "grpc://127.0.0.1:1", "h2c://" + b2}
+	poolCasesOver(run, rand.New(rand.NewSource(run.Seed*86028121+16)), other, run.Scale(70, 700), "-other-schemes")
+}
+
+func poolCasesOver(run *vh.Run, r *rand.Rand, universe []string, n int, suffix string) {
 	for i := 0; i < n; i++ {
 		cfg := newCfg(0, false)
 		pool := proxy.VerifC16NewPool(nil, cfg)
@@ -1085,7 +1115,7 @@ func poolCases(run *vh.Run, r *rand.Rand, backends []*backend) {
 		if bad {
 			continue
 		}
-		run.Add(class, vh.App("CPool", strsCoq(t0), vh.List(ops), vh.List(obs), vh.List(shut)),
+		run.Add(class+suffix, vh.App("CPool", strsCoq(t0), vh.List(ops), vh.List(obs), vh.List(shut)),
 			map[string]interface{}{"table0": t0, "ops": sample})
 	}
 }
